@@ -11,7 +11,7 @@ from collections.abc import Callable, Iterable, Iterator
 from math import log
 
 from wn._types import AnyPath
-from wn._core import Synset, Wordnet
+from wn._core import Synset, Wordnet, _INFERRED_SYNSET
 from wn.constants import NOUN, VERB, ADJ, ADV, ADJ_SAT
 from wn.util import synset_id_formatter
 
@@ -143,7 +143,11 @@ def compute(
                     continue
                 seen.add(ss)
 
-                freq[pos][ss.id] += weight
+                # inferred synsets (gaps filled in through expand
+                # lexicons) are not synsets of the wordnet and carry no
+                # weight; the weight still reaches what lies above them
+                if ss.id != _INFERRED_SYNSET:
+                    freq[pos][ss.id] += weight
 
                 if ss not in hypernym_cache:
                     hypernym_cache[ss] = ss.hypernyms()
